@@ -3,25 +3,49 @@ Spec: the row pipeline of spec/SQLTables.tla (defaults for omitted / DEFAULT cel
 CHECK with NULL = satisfied, stored generated columns recomputed on every write, INSERT IGNORE /
 UPDATE IGNORE adjusting NULL to the zero value or skipping the row).
 Projection: ok / failure class (notnull, check) of every statement, table contents (defaults and
-generated values are contents), and NotNullT / ChecksT / GenT evaluated by TLC on the LOGGED tables."""
+generated values are contents), and NotNullT / ChecksBothT / GenT evaluated by TLC on the LOGGED tables
+after every statement (ChecksBothT: no enforced CHECK is FALSE for a logged row, neither as logged nor
+with its generated columns recomputed from the logged base columns).
+Vocabulary (dmlgen profile c19): up to two generated columns, STORED or VIRTUAL, over one or two
+base columns (a + 1, a * 2, a - b, a + b, COALESCE sums and differences, UPPER / CONCAT / LEFT);
+CHECKs over base columns and over generated columns (bounds the ordinary value pool mostly
+satisfies and far values break); INSERT, multi-row INSERT, INSERT IGNORE, REPLACE, single- and
+multi-row ON DUPLICATE KEY UPDATE (later rows repeat the key of an earlier row, so the upsert path
+is taken whatever the table holds), UPDATE / UPDATE IGNORE with one to three assignments, all aimed
+at the base columns the checked generated columns read, and INSERT / INSERT IGNORE / REPLACE ..
+SELECT from the table itself (SQLTables!SelRows)."""
 import dmlcommon as dc
 
 PID = "C19"
 META = {
     "property_id": PID,
     "level": "model_checking",
-    "technique": "TLA+ table/statement spec SQLTables.tla: invariants NotNullHolds/ChecksHold/GeneratedConsistent model-checked on a bounded exhaustive model with defaults, CHECK and a stored generated column; TLC evaluates them on the tables logged from the real engine and validates every statement's outcome",
-    "text": "No stored row makes an enforced CHECK FALSE or holds NULL in a NOT NULL column; a statement that would cause this fails (INSERT IGNORE / UPDATE IGNORE skip the row or store the zero value); omitted columns get their declared default; stored generated columns always equal their expression over the row's current values.",
-    "note": "Warnings are not compared; virtual generated columns are outside the generated fragment.",
+    "technique": "TLA+ table/statement spec SQLTables.tla: invariants NotNullHolds/ChecksHold/GeneratedConsistent model-checked on a bounded exhaustive model with defaults, a stored generated column over two base columns, a CHECK over base columns and a CHECK over the generated column; TLC evaluates them on the tables logged from the real engine and validates every statement's outcome",
+    "text": "No stored row makes an enforced CHECK FALSE or holds NULL in a NOT NULL column; a statement that would cause this fails (INSERT IGNORE / UPDATE IGNORE skip the row or store the zero value); omitted columns get their declared default; generated columns (stored and virtual) always equal their expression over the row's current values, and a CHECK over a generated column holds for that value.",
+    "note": "Warnings are not compared. INSERT .. SELECT reads the target table itself with ORDER BY over its full primary key and is not combined with ON DUPLICATE KEY UPDATE. Tables with a VIRTUAL generated column enforce no CHECK at all in the engine (open finding C19-virtual-column-disables-checks), so other CHECK defects are only visible on the tables whose generated columns are all STORED (about 7 of 8 tables with generated columns).",
 }
 
-RULE = ("seeded random schemas with NOT NULL, literal defaults, 1-2 CHECKs and a stored generated column x histories of 10-40 statements "
-        "(omitted columns, DEFAULT cells, NULL into NOT NULL, INSERT IGNORE, UPDATE IGNORE, ON DUPLICATE KEY UPDATE).")
+RULE = ("seeded random schemas with NOT NULL, literal defaults, 1-2 CHECKs (over base and over generated columns) and 1-2 generated columns "
+        "(STORED / VIRTUAL, over one or two base columns) x histories of 10-40 statements "
+        "(omitted columns, DEFAULT cells, NULL into NOT NULL, INSERT IGNORE, UPDATE IGNORE, REPLACE, single- and multi-row ON DUPLICATE KEY UPDATE, "
+        "UPDATE with 1-3 assignments, INSERT .. SELECT).")
+
+
+def count(evs):
+    st = [e for e in evs if e["ev"] == "stmt"]
+    gc = [e for e in st if "gencheck" in e.get("tags", [])]
+    return {"statements_on_tables_with_check_over_generated_column": len(gc),
+            "upserts_on_those_tables": sum(1 for e in gc if e["stmt"].get("mode") == "odku"),
+            "check_failures_on_those_tables": sum(1 for e in gc if e["reply"].get("class") == "check"),
+            "statements_on_tables_with_virtual_column": sum(1 for e in st if "vgen" in e.get("tags", [])),
+            "insert_select_statements": sum(1 for e in st if "select" in e.get("tags", []))}
 
 
 def check(tier):
     return dc.check(PID, tier, "c19", ["MC_Tables_cons_q.cfg"], ["MC_Tables_cons_t.cfg"], "MC_Tables_cons_dump.cfg",
-                    floors={"statements": 300, "changed": 100, "err:notnull": 10, "err:check": 5}, rule=RULE)
+                    floors={"statements": 300, "changed": 100, "err:notnull": 10, "err:check": 5,
+                            "statements_on_tables_with_check_over_generated_column": 150, "upserts_on_those_tables": 40,
+                            "check_failures_on_those_tables": 10, "insert_select_statements": 20}, rule=RULE, count=count)
 
 
 def replay(path):
